@@ -135,7 +135,7 @@ def same_pairs(got, want):
     return True
 
 
-OTHER_BLOCK = 'aa = 2*bb + 1\nbb = aa(k-1)\ncc(0) = 7.\noops again\nMaxTime = 9\nErr_Tolerance = 1e-3\n# exogenous\ndd = [1., 2.]'
+OTHER_BLOCK = 'aa = 2*bb + 1\nbb = aa(k-1)\nee = aa\nff = ee + 1\ncc(0) = 7.\noops again\nMaxTime = 9\nErr_Tolerance = 1e-3\n# exogenous\ndd = [1., 2.]'
 
 
 def classify_check(text, case, reuse=False):
@@ -150,6 +150,8 @@ def classify_check(text, case, reuse=False):
         if reuse:
             # the same parser object has parsed another block before: nothing of it may remain
             p.ParseString(OTHER_BLOCK)
+            p.GenerateTokenList()
+            p.EquationReduction()
         msg = p.ParseString(text)
     except Exception as e:
         V('parser-raises:' + type(e).__name__, 'ParseString raised %r' % (e,))
@@ -172,6 +174,18 @@ def classify_check(text, case, reuse=False):
     wtol = want.tol if want.tol is not None else '1e-8'
     if float(p.Err_Tolerance) != float(wtol):
         V('tolerance-wrong', 'Err_Tolerance = %r expected %r' % (p.Err_Tolerance, wtol))
+    # the parser's own bookkeeping must describe this block only
+    allnames = set(v for v, r in wendo) | set(l for l, s_ in want.lagged) | set(v for v, r in want.exo) | set(x + '(0)' for x in want.ic)
+    if want.maxtime is not None:
+        allnames.add('MaxTime')
+    if want.tol is not None:
+        allnames.add('Err_Tolerance')
+    if set(p.AllEquations) != allnames:
+        V('all-equations-wrong', 'AllEquations lists %r, the block defines %r' % (sorted(set(p.AllEquations) ^ allnames), sorted(allnames)))
+    if dict(p.Tokens) != {}:
+        V('tokens-not-reset-after-parse', 'Tokens = %r right after ParseString' % (sorted(p.Tokens),))
+    if list(p.Decoration) != []:
+        V('decoration-not-empty-after-parse', 'Decoration = %r right after ParseString' % (p.Decoration,))
     for bad in want.malformed:
         if bad not in msg:
             V('malformed-line-not-reported', 'line %r not mentioned in the parser message %r' % (bad, msg[:120]))
